@@ -623,6 +623,13 @@ func singleDefs(info *types.Info, body *ast.BlockStmt) map[types.Object]localDef
 					defs[o] = localDef{x.Rhs[0], i, len(x.Lhs)}
 				}
 			}
+		case *ast.IncDecStmt:
+			// i++ / i-- re-define the variable: a loop counter is not a single-definition local
+			if id, ok := ast.Unparen(x.X).(*ast.Ident); ok {
+				if o := info.ObjectOf(id); o != nil {
+					cnt[o]++
+				}
+			}
 		case *ast.ValueSpec:
 			for i, id := range x.Names {
 				if o := info.Defs[id]; o != nil {
